@@ -4,11 +4,13 @@
 (*   "sweep"  every name of the table under every unary template              *)
 (*   "build"  a builder machine (wrap the tree with an operator and a sibling *)
 (*            of depth <= 1) explored by TLC's simulator to depth MaxD        *)
+(*   "py"     the Python corner: head x trailers x wrapper x warm/cold parser  *)
+(*   "persist" registry kind x unit form x carrier x persistence route         *)
 (*   "tok"    every token sequence of length <= MaxTok over the tokens TokPick *)
 (*            of the alphabet, for each joiner                                *)
 (* Cases are exported as JSON records from the invariant Export.              *)
 EXTENDS Parser
-CONSTANTS Mode, Depth, NGenNames, NGenCoefs, NGenExps, MaxD, MaxTok, TokPick, NJoin, Thin
+CONSTANTS Mode, Depth, NGenNames, NGenCoefs, NGenExps, MaxD, MaxTok, TokPick, NJoin, Thin, MaxTr, MaxTrW
 GN == 1..NGenNames
 GC == 1..NGenCoefs
 GE == 1..NGenExps
@@ -27,12 +29,22 @@ NextBuild == /\ c.d < MaxD
 \* (head + rest keeps every enumerated set below TLC's limit of 10^6 elements)
 NextTok == c = <<>> /\ \E n \in 0..(MaxTok - 1) : \E h \in TokPick : \E rest \in [1..n -> TokPick] : \E j \in 1..NJoin :
              c' = [k |-> "tok", t |-> <<h>> \o rest, j |-> j]
-Next == CASE Mode = "valid" -> NextValid [] Mode = "sweep" -> NextSweep [] Mode = "build" -> NextBuild [] OTHER -> NextTok
+\* Python corner: <= MaxTr trailers under the first two wrappers (bare, product), <= MaxTrW under the others
+NextPy == c = <<>> /\ \E h \in DOMAIN PyHeads : \E w \in DOMAIN PyWraps : \E n \in 0..(IF w <= 2 THEN MaxTr ELSE MaxTrW) :
+            \E tr \in [1..n -> DOMAIN PyTrailers] : \E warm \in BOOLEAN :
+              c' = [k |-> "py", h |-> h, tr |-> tr, w |-> w, warm |-> warm]
+NextPersist == c = <<>> /\ \E rk \in DOMAIN RegKinds : \E f \in DOMAIN Forms : \E ca \in DOMAIN Carriers : \E rt \in DOMAIN Routes :
+                 PersistCase(RegKinds[rk], Forms[f], Carriers[ca], Routes[rt])
+                 /\ c' = [k |-> "persist", rk |-> RegKinds[rk], f |-> Forms[f], ca |-> Carriers[ca], rt |-> Routes[rt]]
+Next == CASE Mode = "valid" -> NextValid [] Mode = "sweep" -> NextSweep [] Mode = "build" -> NextBuild
+          [] Mode = "py" -> NextPy [] Mode = "persist" -> NextPersist [] OTHER -> NextTok
 \* deterministic thinning of the simulator's export (it evaluates the invariant on every successor)
 RECURSIVE WSum(_, _)
 WSum(a, n) == IF n = 0 THEN 0 ELSE (n * a[n] + WSum(a, n - 1)) % 1000003
 Export ==
   IF c = <<>> THEN TRUE
+  ELSE IF c.k = "py" THEN PrintT(ToJson([tag |-> "PY", h |-> c.h, tr |-> c.tr, w |-> c.w, warm |-> c.warm, s |-> PyText(c.h, c.tr, c.w)]))
+  ELSE IF c.k = "persist" THEN PrintT(ToJson([tag |-> "PERSIST", rk |-> c.rk, f |-> c.f, ca |-> c.ca, rt |-> c.rt]))
   ELSE IF c.k = "tok" THEN PrintT(ToJson([tag |-> "TOK", t |-> c.t, j |-> c.j, x |-> [n \in DOMAIN c.t |-> Toks[c.t[n]].s], pred |-> TokPredict(c.t), feat |-> TokFeatures(c.t)]))
   ELSE (Mode = "build" /\ (c.d < MaxD \/ WSum(c.a, Len(c.a)) % Thin # 0)) \/
        PrintT(ToJson([tag |-> "AST", a |-> c.a, sp |-> Spellings(c.a), sem |-> Sem(c.a, "name"), cf |-> Sem(c.a, "name").coef = ROne]))
